@@ -230,6 +230,10 @@ def document(input_file: str, settings: Settings):
                             subdir,
                             ""))) or os.path.abspath(os.path.join(root, subdir)) == output_dir:
                     subdirs.remove(subdir)
+                # os.walk() lists a symlink to a directory among the subdirs even when it
+                # is not going to follow it: it gets no index.rst, so it must not be listed
+                elif not settings.input.follow_symlinks and os.path.islink(os.path.join(root, subdir)):
+                    subdirs.remove(subdir)
 
             # Check if any files match the exclusion filters
             # If they do, remove them and the rest of the processing
